@@ -32,12 +32,12 @@ CHECKS = {
         "DESIGN.md section 6/C06"),
     "C18": (
         "PBT with a recording wrapper around generated dynamic filters: call-log invariants, accept-all == no filter, reject-P == forest without P, precedence filter == static priorities",
-        "Exploration: operator grammars (optionally with a nullable prefix rule Sign: '~' | EMPTY whose alternatives can be marked) with every/generated subsets of productions and terminals marked dynamic; filters accept-all, reject-all-reductions-of-one-production and precedence-encoding are wrapped in a recorder; for every expression with <= 3 operators (+ generated 4-operator ones), LR and GLR: first call is the all-None initialisation, later calls only for marked terminals/productions with matching sub-results; accept-all equals the parse without filter; reject-P gives exactly the trees not using P (SyntaxError iff none); the precedence filter gives the single precedence-climbing tree; LR sub-results of an operator reduction must hold the operator in the middle and be a run of the input; one-sided marking (only terminals / only productions, no static priorities) must construct and give the left- / right-nested tree with a shift- / reduction-rejecting filter.",
+        "Exploration: operator grammars (optionally with a nullable prefix rule Sign: '~' | EMPTY whose alternatives can be marked) with every/generated subsets of productions and terminals marked dynamic; filters accept-all, reject-all-reductions-of-one-production and precedence-encoding are wrapped in a recorder; for every expression with <= 3 operators (+ generated 4-operator ones), LR and GLR: first call is the all-None initialisation, later calls only for marked terminals/productions with matching sub-results; accept-all equals the parse without filter; reject-P gives exactly the trees not using P (SyntaxError iff none); the precedence filter gives the single precedence-climbing tree; LR sub-results of an operator reduction must hold the operator in the middle and be a run of the input; one-sided marking (only terminals / only productions, no static priorities) must construct and give the left- / right-nested tree with a shift- / reduction-rejecting filter; sub-check span-keyed-filters: arbitrary consistent filters (generated 64-bit mask over action kind, production/terminal and span in tokens) on grammars with nullable operators and prefix/infix terminals - GLR must return exactly the unfiltered trees that contain no rejected decision, an LR result must contain no decision that was rejected and never accepted.",
         "Trusted: precedence-climbing reference; LR grammars are fully marked, one-sidedly marked on a single level, or fully statically prioritised so that Parser() constructs.",
         "DESIGN.md section 6/C18"),
     "C07": (
         "differential PBT: tokens chosen by LR (disambiguation on) and pursued by GLR (off) vs an executable statement of the documented lexical-disambiguation rules, over generated terminal sets and expected-set groupings",
-        "Exploration: generated sets of 2-6 terminals (string, regex, custom recognizers with both signatures; priorities; prefer; nofinish; optional KEYWORD; ignore_case) grouped into 1-3 selector states with different expected sets, plus every pair of pool terminals; for 27 probe texts per state LR must pick exactly the token the documented order picks (priority, string/keyword over others, longest, prefer), raise DisambiguationError with exactly the remaining tokens, or SyntaxError at the token position; GLR must pursue exactly the matching expected terminals of the highest matching priority.",
+        "Exploration: generated sets of 2-6 terminals (string, regex, custom recognizers with both signatures; priorities; prefer; nofinish; optional KEYWORD; ignore_case) grouped into 1-3 selector states with different expected sets, plus every pair of pool terminals; for 27 probe texts per state LR must pick exactly the token the documented order picks (priority, string/keyword over others, longest, prefer), raise DisambiguationError with exactly the remaining tokens, or SyntaxError at the token position; GLR must pursue exactly the matching expected terminals of the highest matching priority, GLR with lexical_disambiguation=True exactly the disambiguated ones; every parser is also built with a pass-through custom_token_recognition hook (documented as 'no change'), which must not change any outcome.",
         "Trusted: the rule model in pv/props/c07.py (docs/disambiguation.md). Explicit nofinish on a string terminal is modelled as losing the 'most specific' privilege; positions where such a string competes with another string are skipped and counted; explicit finish marks on non-string terminals are not generated.",
         "DESIGN.md section 6/C07"),
     "C08": (
@@ -52,7 +52,7 @@ CHECKS = {
         "DESIGN.md section 6/C11"),
     "C12": (
         "model-based PBT over generated histories on one grammar directory (builds with varying options, edits of root / import / second-level import / error-example file, touches with a logical clock, pglr compile, deletion, truncation to generated byte prefixes and injected crashes during the write of the table cache .pgc and of the compiled error hints .pgec) compared with builds from pristine copies without caches; fault enumeration over byte prefixes of reference caches; save/load round-trip PBT with a lock-step walk of both automata",
-        "Exploration: generated histories of 3-12 operations over a root grammar importing a second file that imports a third (3 x 3 x 3 variants incl. conflicts and string-vs-regex lexical ambiguity), optionally with a .pge error-example file (2 variants); after every build the serialised table and the outcomes of 18 probe inputs (results, forests, error positions and SyntaxError.hint) must equal those of the same class/options built from a pristine copy of the current files with no cache - whether a cache is absent, fresh, older than any grammar file, truncated, or left by a crash after k bytes of the write (open() shadowed in parglare.tables.persist and parglare.parser); every 13th (thorough: every) byte prefix of two reference .pgc files and every prefix of two .pgec files is enumerated as on-disk state; round trip: load(save(t)) keeps serialised actions/gotos, finish flags, conflicts and dynamic marks, is the same automaton state for state, and a second save is byte-identical.",
+        "Exploration: generated histories of 3-12 operations over a root grammar importing a second file that imports a third (3 x 3 x 3 variants incl. conflicts and string-vs-regex lexical ambiguity), optionally with a .pge error-example file (2 variants); after every build the serialised table and the outcomes of 18 probe inputs (results, forests, error positions and SyntaxError.hint) must equal those of the same class/options built from a pristine copy of the current files with no cache - whether a cache is absent, fresh, older than any grammar file, truncated, or left by a crash after k bytes of the write (open() shadowed in parglare.tables.persist and parglare.parser); two root grammars whose file names share a stem (g.pg / g.ext.pg, ...; dialects over the same symbols) in one directory must each build like that file alone; every 13th (thorough: every) byte prefix of two reference .pgc files and every prefix of two .pgec files is enumerated as on-disk state; round trip: load(save(t)) keeps serialised actions/gotos, finish flags, conflicts and dynamic marks, is the same automaton state for state, and a second save is byte-identical.",
         "Trusted: crashes modelled as 'bytes written so far stay on disk'; mtimes set by the harness from a logical clock (never equal, and never forged so that a file edited after a cache was written looks older than it - the precondition of any mtime-keyed cache). Known findings D8 / D20 (table options / parser kind are not part of the .pgc / .pgec key) are tolerated only for builds that load an intact, fresh cache which the history wrote under different options; every other history is strict.",
         "DESIGN.md section 6/C12"),
     "C13": (
@@ -66,13 +66,13 @@ CHECKS = {
         "Trusted: the renderer never changes token boundaries (single-character terminals or forced separators). Messages/tokens_ahead are not compared between ws and LAYOUT parsers.",
         "DESIGN.md section 6/C14"),
     "C15": (
-        "model-based PBT over generated operation histories (build Parser/GLRParser with varying tables/recovery/strictness, failing builds, parses that fail, recover, or raise from user actions/recognizers) on one shared Grammar object; every operation is compared with the same operation on freshly built objects",
+        "model-based PBT over generated operation histories (build Parser/GLRParser with varying tables/recovery/strictness, failing builds, parses that fail, recover, or raise - with a generated exception class - from user actions/recognizers) on one shared Grammar object; every operation is compared with the same operation on freshly built objects",
         "Exploration: generated histories of 3-14 operations over one Grammar (random small grammars and grammars that keep two GLR heads in different states on one frontier, optionally with a comment LAYOUT rule, optionally with an unproductive rule so that every build fails; inputs with generated layout before the first token; a user recognizer that raises both where nothing else matches and where another head has already found its token) and a pool of parser instances; after every step the outcome (build result or exception type; parse result / forest trees and call_actions values / exception type, position and expected symbols / recovered error spans) must equal that of the same operation on a fresh Grammar and parser; the thorough tier additionally replays every operation on fresh objects in a fresh interpreter process (module globals).",
         "Trusted: all parsers of a history get the same actions (precondition of the property). LR parses that do not terminate within 1 s are skipped and counted (termination is not this property's subject).",
         "DESIGN.md section 6/C15"),
     "C16": (
         "differential PBT across subprocesses started with different PYTHONHASHSEED values (and a repeated run with the same seed): tables, action order, .pgc bytes, conflict reports, LR results and forests must be identical",
-        "Exploration: generated batches of grammars (random small grammars, many terminals whose names differ in one character inside one lookahead set, ambiguous operator grammars, multi-file grammars whose imported files define terminals of the same name) are built in fresh interpreter processes under hash seeds 0,1,2,3 (12 seeds in the thorough tier): sha256 of the serialised table for LR/GLR x LALR/SLR, per-state action order, bytes of the written .pgc, conflict reports as (state, terminal, productions), LR results and the first 25 forest trees in index order (to_str) must be equal in every process; a family of heavily ambiguous nullable grammars over one terminal (sub-check hash-seed-nullable-ambiguous) targets the order of the forest; for file-based grammars a second construction in the same directory (which loads the cached table) must report the same table and conflicts as the first.",
+        "Exploration: generated batches of grammars (random small grammars, many terminals whose names differ in one character inside one lookahead set, ambiguous operator grammars, multi-file grammars whose imported files define terminals of the same name) are built in fresh interpreter processes under hash seeds 0,1,2,3 (12 seeds in the thorough tier): sha256 of the serialised table for LR/GLR x LALR/SLR, per-state action order, bytes of the written .pgc, conflict reports as (state, terminal, productions), LR results and the first 25 forest trees in index order (to_str), with consume_input=True and False (several accepted heads merged into one forest), must be equal in every process; a family of heavily ambiguous nullable grammars over one terminal (sub-check hash-seed-nullable-ambiguous) targets the order of the forest; for file-based grammars a second construction in the same directory (which loads the cached table) must report the same table and conflicts as the first.",
         "Trusted: a finite set of hash seeds. Conflict reports are compared by meaning (state, terminal, productions), not by rendered text (which lists lookahead sets in set order).",
         "DESIGN.md section 6/C16"),
     "C17": (
